@@ -1,6 +1,7 @@
 package mount
 
 import (
+	iofs "io/fs"
 	"path"
 
 	"github.com/hack-pad/hackpadfs"
@@ -71,7 +72,7 @@ func c07NewView() (view hackpadfs.FS, parent hackpadfs.FS, dir string) {
 // (the model is the common reference), and nothing outside dir changes.
 func VerifC07Twin() {
 	view, parent, dir := c07NewView()
-	inner := rNewTree()  // the view's namespace
+	inner := rNewTree() // the view's namespace
 	if verifParam("FSKIND") == 3 {
 		e, _ := inner.mkdir("a", 0666)
 		verifAssert(e == 0, "model mkdir a")
@@ -132,13 +133,13 @@ func VerifC07Confine() {
 	dn := verifChoice("dir.len", verifParam("LEN")+1)
 	nn := verifChoice("name.len", verifParam("LEN")+1)
 	dir, name := verifString("dir", dn), verifString("name", nn)
-	verifAssume(hackpadfs.ValidPath(dir))
-	verifAssume(hackpadfs.ValidPath(name))
+	verifAssume(iofs.ValidPath(dir))
+	verifAssume(iofs.ValidPath(name))
 	view, err := newSubFSForVerif(dir)
 	verifAssert(err == nil, "Sub with a valid dir failed")
 	_, joined := view.Mount(name)
 	verifReach("joined")
-	verifAssert(hackpadfs.ValidPath(joined), "the joined path is not a valid path")
+	verifAssert(iofs.ValidPath(joined), "the joined path is not a valid path")
 	if dir == "." {
 		verifAssert(joined == name, "Sub(.): the joined path differs from the name")
 		return
